@@ -318,6 +318,8 @@ def run(ctx):
                     out.append([name, span.start, span.end, span.path])
         except ValueError:
             return {"exc": "ValueError"}
+        except Exception as exc:  # compared with the model's answer like any other result
+            return {"exc": type(exc).__name__}
         return {"bindings": out}
 
     drv = core.Driver()
@@ -411,7 +413,18 @@ def run(ctx):
 
         # ------------------------------------------------------------------------- (ii) end to end
         t1 = ctx.elapsed()
-        e2e = E2E(ctx, drv, (pp, lp, cli_tag, make_db, ut))
+        try:
+            e2e = E2E(ctx, drv, (pp, lp, cli_tag, make_db, ut))
+        except Exception as exc:
+            import traceback
+            ctx.broken.append("corr:C01 end to end (ProgramParser() cannot be constructed on the shipped spec.md)")
+            ctx.violations.append({
+                "what": f"ProgramParser() raised {type(exc).__name__}: {str(exc)[:300]} on the shipped spec.md: no program can be tagged",
+                "no_input": True, "name": "crash",
+                "replay": {"kind": "no-failing-input-found", "call": "paroxython.parse_program.ProgramParser()",
+                           "exception": f"{type(exc).__name__}: {str(exc)[:300]}",
+                           "traceback": traceback.format_exception(type(exc), exc, exc.__traceback__)[-8:]}})
+            return core.finish(ctx)
         progs = []
         for i, src in enumerate(SEEDS + ADVERSARIAL_SEEDS + MORE_ADVERSARIAL + WIDE_SEEDS):
             progs.append((f"seed{i}", src))
